@@ -67,7 +67,7 @@ func (g gcase) text(real bool, logPath string) string {
 		if g.Variant == "files" && i%2 == 1 {
 			deps = append(deps, "\"dep.txt\"")
 		}
-		ncmd := 1 + i%2
+		ncmd := c03NCmd(i)
 		write := func() {
 			fmt.Fprintf(&b, "task %s(%s) {\n", c03Names[i], strings.Join(deps, ", "))
 			for k := 0; k < ncmd; k++ {
@@ -90,6 +90,9 @@ func (g gcase) text(real bool, logPath string) string {
 	}
 	return b.String()
 }
+
+// c03NCmd: tasks have 1, 2 or no commands (a task without commands still takes part in the run).
+func c03NCmd(i int) int { return []int{1, 2, 0, 1, 2, 1, 0, 2}[i%8] }
 
 func (g gcase) request() []string {
 	var out []string
@@ -514,7 +517,7 @@ func c03Judge(root string, g gcase, reps int, res *core.ShardResult) (vs []core.
 					ti = k
 				}
 			}
-			for k := 0; k < 1+ti%2; k++ {
+			for k := 0; k < c03NCmd(ti); k++ {
 				want = append(want, runEvent{Task: r.Task, Cmd: fmt.Sprintf("run %s %d", r.Task, k)})
 			}
 		}
@@ -684,14 +687,17 @@ func c03BinaryCase(c *core.Ctx, g gcase, res *core.ShardResult) (vs []core.Viola
 		at[l] = i
 	}
 	for _, i := range closure {
-		for k := 0; k < 1+i%2; k++ {
+		for k := 0; k < c03NCmd(i); k++ {
 			if _, ok := at[fmt.Sprintf("%s.%d.ok", c03Names[i], k)]; !ok {
 				bad("nothing-left-out", "command %d of task %s did not run (log %v)", k, c03Names[i], lines)
 				return
 			}
 		}
 		for _, j := range g.deps(i) {
-			lastDep := at[fmt.Sprintf("%s.%d.ok", c03Names[j], j%2)]
+			if c03NCmd(j) == 0 || c03NCmd(i) == 0 {
+				continue // nothing of that task in the log; the report order was checked above
+			}
+			lastDep := at[fmt.Sprintf("%s.%d.ok", c03Names[j], c03NCmd(j)-1)]
 			first := at[fmt.Sprintf("%s.0.start", c03Names[i])]
 			if lastDep > first {
 				bad("dependencies-first", "task %s started before its dependency %s finished (log %v)", c03Names[i], c03Names[j], lines)
